@@ -465,8 +465,8 @@ def gen_script(rng, *, kind, n_steps, faults=True, tocks="any", ret_kinds=("true
     o0 = ["y", None]
     if kind in ("func", "bound", "doergen") and rng.random() < 0.06:
         o0 = ["r", rng.choice(ret_kinds)]
-    if faults and rng.random() < 0.05:
-        o0 = ["x"]
+    if faults and rng.random() < 0.07:
+        o0 = ["x"] if rng.random() < 0.7 else ["k"]     # the enter fails, also with a BaseException that is not an Exception
     steps.append({"es": [], "out": o0})
     if o0[0] != "y":
         return steps
